@@ -199,3 +199,62 @@ pub proof fn lemma_dedup_props(s: Seq<String>)
         }
     }
 }
+
+/// grad_at at every carried position
+pub proof fn lemma_grad_at_all(names: Seq<String>, vals: Seq<R64>)
+    requires names.no_duplicates(),
+    ensures forall|i: int| 0 <= i < names.len() ==> #[trigger] grad_at(names, vals, names[i]) == vals[i]@,
+{
+    assert forall|i: int| 0 <= i < names.len() implies #[trigger] grad_at(names, vals, names[i]) == vals[i]@ by {
+        lemma_grad_at_index(names, vals, i);
+    }
+}
+
+/// re-laying gradients onto a new name list by name lookup (values[i] = old gradient of target[i])
+pub proof fn lemma_new_vars_grad(names: Seq<String>, vals: Seq<R64>, target: Seq<String>, out: Seq<R64>)
+    requires
+        names.no_duplicates(), target.no_duplicates(), out.len() == target.len(),
+        forall|i: int| 0 <= i < target.len() ==> (#[trigger] out[i])@ == grad_at(names, vals, target[i]),
+    ensures
+        forall|n: String| #[trigger] grad_at(target, out, n) == (if target.contains(n) { grad_at(names, vals, n) } else { 0real }),
+{
+    assert forall|n: String| #[trigger] grad_at(target, out, n) == (if target.contains(n) { grad_at(names, vals, n) } else { 0real }) by {
+        if target.contains(n) {
+            let i = target.index_of(n);
+            assert(out[i]@ == grad_at(names, vals, target[i]));
+        }
+    }
+}
+
+/// the Hessian entry selected by two looked-up positions (None = name not carried)
+pub open spec fn hess_lookup(m: Array2<R64>, idx: Seq<Option<usize>>, a: int, b: int) -> real {
+    if idx[a].is_some() && idx[b].is_some() { m.at(idx[a].unwrap() as int, idx[b].unwrap() as int)@ } else { 0real }
+}
+
+/// `idx[a]` is the position of target[a] in names (None iff absent)
+pub open spec fn idx_ok(names: Seq<String>, target: Seq<String>, idx: Seq<Option<usize>>) -> bool {
+    idx.len() == target.len()
+    && forall|a: int| 0 <= a < target.len() ==> (
+        ((#[trigger] idx[a]).is_some() ==> (idx[a].unwrap() as int) < names.len() && names[idx[a].unwrap() as int] == target[a])
+        && (idx[a].is_none() ==> !names.contains(target[a])))
+}
+
+pub proof fn lemma_new_vars_hess(names: Seq<String>, m: Array2<R64>, target: Seq<String>, idx: Seq<Option<usize>>, out: Array2<R64>)
+    requires
+        names.no_duplicates(), target.no_duplicates(), idx_ok(names, target, idx),
+        forall|a: int, b: int| 0 <= a < target.len() && 0 <= b < target.len() ==> (#[trigger] out.at(a, b))@ == hess_lookup(m, idx, a, b),
+    ensures
+        forall|n: String, k: String| #[trigger] hess_at(target, out, n, k)
+            == (if target.contains(n) && target.contains(k) { hess_at(names, m, n, k) } else { 0real }),
+{
+    assert forall|n: String, k: String| #[trigger] hess_at(target, out, n, k)
+            == (if target.contains(n) && target.contains(k) { hess_at(names, m, n, k) } else { 0real }) by {
+        if target.contains(n) && target.contains(k) {
+            let a = target.index_of(n);
+            let b = target.index_of(k);
+            assert(out.at(a, b)@ == hess_lookup(m, idx, a, b));
+            if idx[a].is_some() { lemma_index_of_unique(names, idx[a].unwrap() as int); }
+            if idx[b].is_some() { lemma_index_of_unique(names, idx[b].unwrap() as int); }
+        }
+    }
+}
